@@ -242,6 +242,20 @@ impl RawMemoryFreeList {
     }
 }
 
+/// Verification hook (only with `--cfg mmtk_verif`): read-only view of the growth state.
+#[cfg(mmtk_verif)]
+impl RawMemoryFreeList {
+    /// `(high_water - base, limit - base)` in bytes, `current_units`, `max_units`.
+    pub fn verif_growth_state(&self) -> (usize, usize, i32, i32) {
+        (
+            self.high_water.as_usize() - self.base.as_usize(),
+            self.limit.as_usize() - self.base.as_usize(),
+            self.current_units,
+            self.max_units,
+        )
+    }
+}
+
 /**
  * See documentation of `mod tests` below for the necessity of `impl Drop`.
  */
